@@ -228,6 +228,8 @@ def go_stage(cfg, tier, seed, work, lines_file=None, only_lines=False, n_overrid
     shards = 1 if only_lines else cfg.get("shards", {}).get(tier, 4)
     timeout = cfg.get("timeout", {}).get(tier, 600 if tier == "quick" else 3000)
     for idx, run in enumerate(cfg["runs"]):
+        if isinstance(lines_file, dict) and only_lines and idx not in lines_file:
+            continue
         ok, out, binp, pkgdir = build_harness(cfg, run, idx, work)
         if not ok:
             problems.append({"kind": "harness-build", "run": idx, "log": out[-6000:]})
@@ -241,7 +243,8 @@ def go_stage(cfg, tier, seed, work, lines_file=None, only_lines=False, n_overrid
                 outp = os.path.join(work, f"impl_{idx}_{s}.tsv")
                 if os.path.exists(outp):
                     os.remove(outp)
-                lf = lines_file if s == 0 else None
+                lf0 = lines_file.get(idx) if isinstance(lines_file, dict) else lines_file
+                lf = lf0 if s == 0 else None
                 if lf is None and s == 0:
                     cp = os.path.join(VERIF, "corpus", cfg["property"], f"run{idx}.lines")
                     lf = cp if os.path.exists(cp) else None
@@ -466,9 +469,21 @@ def check(prop, tier, seed, replay=None):
     only_lines = False
     if replay:
         data = json.load(open(replay))
-        lines_file = os.path.join(work, "replay.lines")
-        with open(lines_file, "w") as f:
-            f.write("\n".join(data.get("lines", [])) + "\n")
+        # each replayed line goes only to the harness run it came from (default: run 0, or
+        # every run when the replay file does not say)
+        by_run = {}
+        for c in data.get("cases", []):
+            if "input" in c:
+                by_run.setdefault(c.get("run", 0), []).append(c["input"])
+        if not by_run:
+            for idx in range(len(cfg["runs"])):
+                by_run[idx] = list(data.get("lines", []))
+        lines_file = {}
+        for idx, ls in by_run.items():
+            lp = os.path.join(work, f"replay_{idx}.lines")
+            with open(lp, "w") as f:
+                f.write("\n".join(ls) + "\n")
+            lines_file[idx] = lp
         only_lines = True
     results, problems, outs, viol, kf_hits, stale = [], [], [], [], {}, 0
     if lean["driver_ok"]:
